@@ -431,6 +431,15 @@ func writeNativeOverlay(repo, harnessDir, workDir string) (string, error) {
 		}
 		repl[filepath.Join(dir, "zz_replay_test.go")] = real
 	}
+	i := 0
+	for virt, content := range symex.Rewrites(repo) {
+		real := filepath.Join(workDir, fmt.Sprintf("rewrite_%d.go", i))
+		i++
+		if err := os.WriteFile(real, content, 0o644); err != nil {
+			return "", err
+		}
+		repl[virt] = real
+	}
 	b, _ := json.MarshalIndent(map[string]interface{}{"Replace": repl}, "", " ")
 	f := filepath.Join(workDir, "overlay.json")
 	return f, os.WriteFile(f, b, 0o644)
